@@ -43,6 +43,9 @@ CHECKS = {
     "C14": dict(engine="explorer", cat="model_checking", ref="5/C14",
                 text="Stash / stash-after-upgrade / clone / drop / fetch over 1-2 sets and up to 3 handles interleaved with collector increments, slot table in the state hash; handles are roots of the shadow (safety oracle + C02 probe = alive exactly while a handle exists); probes present every handle to the sibling set, to another arena's set and, after dropping the arena, to a live set.",
                 tech="explicit-state BFS with dynamic-root alphabet + per-state foreign-presentation probe"),
+    "C20": dict(engine="explorer", cat="model_checking", ref="5/C20",
+                text="Product exploration of two real arenas with different pacing on one thread (allocation, links, weak pointers, handles, collector steps, dropping either arena): after every operation on one arena the other arena's canonical bookkeeping (incl. colours), drop log, Gc count, debt bits, phase and handles are bit-identical, its own oracles still hold, foreign handles are refused, and C02/C04 probes hold per arena in every product state.",
+                tech="explicit-state BFS over the product of two real arenas, non-interference oracle"),
 }
 
 NOT_YET = {
